@@ -217,6 +217,27 @@ def run(ctx):
                        detail="interval analysis gives %r" % (v,), analysis="IVL (loop peeling, callee summaries)")
     ctx.floor("C01.CARRY", n_carry, 12, "carry sinks")
 
+    # ---------------------------------------------------------------- C01.FRESH
+    cfg_it = ctx.cfg(it)
+    rd_it = ReachingDefs(cfg_it, params=it.params)
+    n_fresh = 0
+    for n in cfg_it.live_nodes():
+        if n.kind == "stmt" and n.ast is not None:
+            for x in ast.walk(n.ast):
+                if isinstance(x, ast.Call) and isinstance(x.func, ast.Attribute) and x.func.attr == "rebuild" and isinstance(x.func.value, ast.Name):
+                    nm = x.func.value.id
+                    defs = [cfg_it.nodes[d] for d in rd_it.at(n, nm) if d]
+                    ok = bool(defs) and all(isinstance(d.ast, ast.Assign) and isinstance(d.ast.value, ast.Call) and src(d.ast.value.func) == "_iterinfo" for d in defs) \
+                        and 0 not in rd_it.at(n, nm)
+                    n_fresh += 1
+                    if n_fresh == 1 or not ok:
+                        ctx.ob("C01.FRESH", it, "the per-year masks mutated while iterating belong to an object created by THIS iteration "
+                               "(`%s = _iterinfo(self)`), never to state shared through the rule" % nm, ok, construct="%s.rebuild(...) receiver" % nm,
+                               detail="" if ok else "definitions: %s" % [stmt_text(d) for d in defs], analysis="reaching definitions (fresh allocation)")
+    ctx.floor("C01.FRESH", n_fresh, 3, "rebuild() calls in rrule._iter")
+    st_writes = [src(x) for x in walk_local(it.node) if isinstance(x, ast.Attribute) and isinstance(x.ctx, ast.Store) and isinstance(x.value, ast.Name) and x.value.id == "self"]
+    ctx.ob("C01.FRESH", it, "iteration writes nothing to the rule except the published length", sorted(set(st_writes)) == ["self._len"], construct="attribute stores on self in rrule._iter", detail=str(sorted(set(st_writes))))
+
     # ---------------------------------------------------------------- C01.MONTHCARRY
     from ..rules_common import check_month_carry, region_function
     from ..ivl import Val as _V
